@@ -319,6 +319,26 @@ func (c *Ctx) tokenHalves(fn string, add ssa.CallInstruction, cookie *StateOp, g
 		if gc, i := CallOf(v); gc != nil && Callee(gc) == genName && i == idx {
 			return true
 		}
+		// the generator's body inlined where the token is used (a helper that hands
+		// both forms back in a struct): the hash is StdEncoding(sha512(raw)), the
+		// token URLEncoding(raw) of the same raw buffer
+		if ec, _ := CallOf(v); ec != nil && Callee(ec) == fnB64Encode {
+			if in, isI := ec.(ssa.Instruction); isI && in.Parent() != nil {
+				for _, sc := range CallsTo(in.Parent(), fnSum512) {
+					raw := stripConv(Arg(sc, 0))
+					switch idx {
+					case 0:
+						if encodingOf(ec) == gStdEncoding && derivesFromValue(Arg(ec, 1), sc.Value(), 0) {
+							return true
+						}
+					case 1:
+						if encodingOf(ec) == gURLEncoding && stripConv(Arg(ec, 1)) == raw {
+							return true
+						}
+					}
+				}
+			}
+		}
 		if phi, ok := v.(*ssa.Phi); ok {
 			n := 0
 			for _, e := range phi.Edges {
